@@ -782,10 +782,19 @@ evaluate() const {
       if (r1._type == RT_real || r2._type == RT_real) {
         return Result(r1.as_real() / r2.as_real());
       } else {
+        if (r2.as_integer() == 0 ||
+            (r1.as_integer() == INT_MIN && r2.as_integer() == -1)) {
+          // Not a constant expression (and would trap).
+          return Result();
+        }
         return Result(r1.as_integer() / r2.as_integer());
       }
 
     case '%':
+      if (r2.as_integer() == 0 ||
+          (r1.as_integer() == INT_MIN && r2.as_integer() == -1)) {
+        return Result();
+      }
       return Result(r1.as_integer() % r2.as_integer());
 
     case '+':
